@@ -85,7 +85,11 @@ class Recorder:
         self.evaluations += int(info.get("evals", 1))
         for l in info.get("labels", ()):
             self.labels[l] += 1
-        if info.get("nontrivial"):
+        if enumerated and "nontrivial_count" in info:
+            self.nontrivial_count += int(info["nontrivial_count"])
+            if info["nontrivial_count"] and len(self.samples) < self.MAX_SAMPLES:
+                self.samples.append(jsonable(info.get("sample", case)))
+        elif info.get("nontrivial"):
             if enumerated:
                 self.nontrivial_count += 1
             else:
